@@ -9,6 +9,7 @@ import (
 	"fmt"
 	"os"
 	"path/filepath"
+	"runtime"
 	"strings"
 	"sync"
 	"sync/atomic"
@@ -140,7 +141,44 @@ func verifNotNative(what string) { verifExit("VERIF-ERROR: "+what+" has no nativ
 
 func verifBlockForever()                   { select {} }
 func verifQuiesce()                        { time.Sleep(300 * time.Millisecond) }
-func verifLiveThreads() int                { verifNotNative("verifLiveThreads"); return 0 }
+
+// verifLiveWorkers counts goroutines that are executing code of the package under test, other than the harness's own.
+func verifLiveWorkers() (int, string) {
+	time.Sleep(300 * time.Millisecond)
+	buf := make([]byte, 1<<20)
+	buf = buf[:runtime.Stack(buf, true)]
+	n := 0
+	var where []string
+	for _, g := range strings.Split(string(buf), "\n\n") {
+		if !strings.Contains(g, "trzsz-go/trzsz.") {
+			continue
+		}
+		if strings.Contains(g, "verifLiveWorkers") || strings.Contains(g, "testing.tRunner") || strings.Contains(g, "trzsz.verif") {
+			continue
+		}
+		own := true
+		for _, ln := range strings.Split(g, "\n") {
+			if strings.Contains(ln, "trzsz-go/trzsz.") && !strings.Contains(ln, "trzsz.zz") {
+				own = false // a frame of the real code, not only of harness helpers
+				where = append(where, strings.TrimSpace(ln))
+				break
+			}
+		}
+		if !own {
+			n++
+		}
+	}
+	return n, strings.Join(where, "; ")
+}
+
+func verifLiveThreads() int { n, _ := verifLiveWorkers(); return n }
+
+func verifAssertNoLiveThreads(label string) {
+	if n, where := verifLiveWorkers(); n > 0 {
+		fmt.Println("VERIF-LIVE: " + where)
+		verifExit("VERIF-VIOLATION: "+label, 1)
+	}
+}
 func verifAdvanceTime()                    { time.Sleep(1200 * time.Millisecond) }
 func verifSymbolicClock()                  {}
 func verifHelperExit(int)                  { verifNotNative("verifHelper") }
